@@ -7,7 +7,7 @@
     entries the recursive walker yields, with full paths), the `git cat-file --batch` output format, the
     glob matchers (ignore file: verdict function per branch; LargeFiles: verdict function), index.Builder's
     round trip (skip rewriting modelled by [builder_view] as in C15). *)
-From ZV Require Import Lib.Base Model.DirWalk Model.Catfile.
+From ZV Require Import Lib.Base Model.IgnoreFile Model.DirWalk Model.Catfile.
 
 Inductive gmode := GRegular | GExec | GSymlink | GDir | GSubmodule | GOtherMode.
 
@@ -48,16 +48,37 @@ Definition collect (bs : list gbranch) : gfiles := fold_left collect_branch bs [
 
 (** ---------- documents *)
 
-Definition marker_missing : bytes :=   (* "NOT-INDEXED: object missing from repository" *)
-  [78;79;84;45;73;78;68;69;88;69;68;58;32;111;98;106;101;99;116;32;109;105;115;115;105;110;103;32;102;114;111;109;32;114;101;112;111;115;105;116;111;114;121]%N.
-
-Record gdoc := { gd_name : bytes; gd_branches : list bytes; gd_content : bytes }.
-
 Fixpoint lookup_blob (id : N) (blobs : list (N * bytes)) : option bytes :=
   match blobs with
   | [] => None
   | (k, c) :: r => if N.eqb k id then Some c else lookup_blob id r
   end.
+
+(** newIgnoreMatcher(tree): tree.File(".sourcegraph/ignore") finds the entry and reads it as a blob — any blob-typed
+    entry counts (also a symlink: its target text is then parsed as patterns); a tree or a gitlink there is "not found" *)
+Definition ignore_path : bytes :=   (* ".sourcegraph/ignore" *)
+  [46;115;111;117;114;99;101;103;114;97;112;104;47;105;103;110;111;114;101]%N.
+
+Fixpoint tree_ignore_content (blobs : list (N * bytes)) (es : list gentry) : option bytes :=
+  match es with
+  | [] => None
+  | e :: r => if bytes_eqb (ge_path e) ignore_path
+              then (if is_file_mode (ge_mode e) then lookup_blob (ge_id e) blobs else None)
+              else tree_ignore_content blobs r
+  end.
+
+Definition gbranch_of (glob : bytes -> bytes -> bool) (blobs : list (N * bytes)) (name : bytes) (es : list gentry) : gbranch :=
+  {| gb_name := name; gb_entries := es;
+     gb_ignored := match tree_ignore_content blobs es with
+                   | Some c => ignore_match glob c
+                   | None => fun _ => false
+                   end |}.
+
+
+Definition marker_missing : bytes :=   (* "NOT-INDEXED: object missing from repository" *)
+  [78;79;84;45;73;78;68;69;88;69;68;58;32;111;98;106;101;99;116;32;109;105;115;115;105;110;103;32;102;114;111;109;32;114;101;112;111;115;105;116;111;114;121]%N.
+
+Record gdoc := { gd_name : bytes; gd_branches : list bytes; gd_content : bytes }.
 
 (** Builder.Add on a document with content: a LargeFiles match lifts the size limit *)
 Definition add_view (size_max : nat) (allow_large : bool) (c : bytes) : bytes :=
@@ -156,26 +177,24 @@ Fixpoint gms_eqb (a b : list gdoc) : bool :=
   | x :: a' => match remove_first_g x b with Some b' => gms_eqb a' b' | None => false end
   end.
 
-(** case: SizeMax, paths with a LargeFiles match, blobs (id, content), branches (name, entries
-    (path, mode code, blob id), ignored paths), documents read back after the go-git run, after the
-    cat-file run. Mode codes: 0 regular, 1 executable, 2 symlink, 3 tree, 4 gitlink. *)
+(** case: SizeMax, paths with a LargeFiles match, blobs (id, content), branches (name, entries (path, mode code,
+    blob id)), the (pattern, path) pairs the real glob engine matches (patterns: the harness' own reading of each
+    branch's ignore blob; the MODEL finds the ignore entry in the tree and derives the patterns itself), documents read
+    back after the go-git run, after the cat-file run. Mode codes: 0 regular, 1 executable, 2 symlink, 3 tree, 4 gitlink. *)
 Definition c14gcase :=
-  (N * list bytes * list (N * bytes) * list (bytes * list (bytes * N * N) * list bytes)
+  (N * list bytes * list (N * bytes) * list (bytes * list (bytes * N * N)) * list (bytes * bytes)
    * list (bytes * list bytes * bytes) * list (bytes * list bytes * bytes))%type.
 
 Definition mk_gentry (t : bytes * N * N) : gentry :=
   let '(p, m, id) := t in
   {| ge_path := p; ge_id := id;
      ge_mode := match m with 0%N => GRegular | 1%N => GExec | 2%N => GSymlink | 3%N => GDir | 4%N => GSubmodule | _ => GOtherMode end |}.
-Definition mk_gbranch (t : bytes * list (bytes * N * N) * list bytes) : gbranch :=
-  let '(n, es, igp) := t in
-  {| gb_name := n; gb_entries := map mk_gentry es; gb_ignored := fun p => mem_name p igp |}.
 Definition mk_gdoc (t : bytes * list bytes * bytes) : gdoc :=
   let '(n, brs, c) := t in {| gd_name := n; gd_branches := brs; gd_content := c |}.
 
 Definition c14g_ok (c : c14gcase) : bool :=
-  let '(size_max, large, blobs, brs, docs_a, docs_b) := c in
-  let bs := map mk_gbranch brs in
+  let '(size_max, large, blobs, brs, tab, docs_a, docs_b) := c in
+  let bs := map (fun b => gbranch_of (table_glob tab) blobs (fst b) (map mk_gentry (snd b))) brs in
   let large_ok := fun p => mem_name p large in
   let sm := N.to_nat size_max in
   gms_eqb (docs_gogit sm large_ok blobs bs) (map mk_gdoc docs_a) &&
